@@ -11,7 +11,7 @@ Fixpoint str_of_string (x : String.string) : str :=
   | EmptyString => []
   | String a r => N_of_ascii a :: str_of_string r
   end.
-Notation "'S' x" := (str_of_string x%string) (at level 9, only parsing).
+Notation "'STR' x" := (str_of_string x%string) (at level 9, only parsing).
 
 Fixpoint str_eqb (a b : str) : bool :=
   match a, b with
